@@ -211,7 +211,7 @@ def gen_elements_text(ml):
     names = [(n, int(m.z)) for n, m in Element.__members__.items()]
     syms = [(int(e.z), e.symbol) for e in Element]
     t = ["(* regenerated from molli.chem.Element on every run (tie T): Element[name] and Element(z).symbol *)",
-         "From Coq Require Import List ZArith String.", "Import ListNotations.", "Open Scope string_scope.",
+         "From Coq Require Import List ZArith String.", "Import ListNotations.", "Local Open Scope string_scope.",
          "Definition element_names : list (string * Z) := ["]
     t.append(";\n".join(f"  ({cq_str(n)}, {cq_Z(z)})" for n, z in names))
     t.append("].")
